@@ -231,7 +231,7 @@ def run_errline(prop, tier, seed, scratch):
                   "distinct_nontrivial = distinct texts.", "tlc MC.tla (spec/JsonText.tla, Mode=error) ; vh errline")
     violations = []
     base = dict(mode="error", strbasic=["ascii"], strfocus=[], numbasic=["int"], numfocus=[], lits=["null"], keybasic=["ascii"], keyfocus=[],
-                wskinds=["NL", "SP"], prekinds=["txt", "NL"], badkinds=["@", "lit", ";", "ukey"], invariants=["TypeOK"])
+                wskinds=["NL", "SP", "LS"], prekinds=["txt", "NL", "LS"], badkinds=["@", "lit", ";", "ukey"], invariants=["TypeOK"])
     cfgs = [dict(base, name="err-t6", maxtoks=8, maxdepth=2, maxwidth=2, wsbudget=2, taillen=2)]
     if not q:
         cfgs = [dict(base, name="err-t8", maxtoks=10, maxdepth=3, maxwidth=2, wsbudget=3, taillen=3, tlc_timeout=1800)]
